@@ -3,6 +3,7 @@
 package crypto
 
 import (
+	"bytes"
 	"crypto/rand"
 	"crypto/sha256"
 	"encoding/binary"
@@ -175,11 +176,13 @@ func (s *SessionKey) Decrypt(ciphertext []byte) ([]byte, error) {
 		s.mu.Unlock()
 		return nil, fmt.Errorf("nonce too old: received %d, expected >= %d", nonceValue, expectedValue)
 	}
-	// Update expected nonce if this one is higher
-	if nonceValue >= s.recvNonce {
-		s.recvNonce = nonceValue + 1
-	}
 	s.mu.Unlock()
+
+	// Reject messages that do not carry the peer's direction prefix
+	// (e.g. our own ciphertext reflected back to us).
+	if !bytes.Equal(nonce[:4], expectedNonce[:4]) {
+		return nil, fmt.Errorf("unexpected nonce direction prefix")
+	}
 
 	aead, err := chacha20poly1305.New(s.key[:])
 	if err != nil {
@@ -190,6 +193,16 @@ func (s *SessionKey) Decrypt(ciphertext []byte) ([]byte, error) {
 	if err != nil {
 		return nil, fmt.Errorf("decrypt: %w", err)
 	}
+
+	// Advance the receive window only after the message has been authenticated,
+	// so that forged or corrupted input never changes what is accepted later.
+	s.mu.Lock()
+	if nonceValue < s.recvNonce {
+		s.mu.Unlock()
+		return nil, fmt.Errorf("nonce too old: received %d, expected >= %d", nonceValue, s.recvNonce)
+	}
+	s.recvNonce = nonceValue + 1
+	s.mu.Unlock()
 
 	return plaintext, nil
 }
